@@ -121,6 +121,12 @@ func linOf(v ssa.Value, sym symNamer) linForm { return linOfP(v, sym, nil) }
 
 // linOfP is linOf with a resolver for phi nodes (path-sensitive evaluation).
 func linOfP(v ssa.Value, sym symNamer, phiRes func(*ssa.Phi) ssa.Value) linForm {
+	return linOfX(v, sym, phiRes, nil)
+}
+
+// linOfX additionally takes an override giving the form of specific values (loads
+// resolved by store-to-load forwarding along a path).
+func linOfX(v ssa.Value, sym symNamer, phiRes func(*ssa.Phi) ssa.Value, ov func(ssa.Value) (linForm, bool)) linForm {
 	if sym == nil {
 		sym = defaultSym
 	}
@@ -128,6 +134,11 @@ func linOfP(v ssa.Value, sym symNamer, phiRes func(*ssa.Phi) ssa.Value) linForm 
 	rec = func(v ssa.Value, d int) linForm {
 		if d > 30 {
 			return linForm{}
+		}
+		if ov != nil {
+			if f, ok := ov(v); ok {
+				return f
+			}
 		}
 		if c, ok := constInt(v); ok {
 			if _, isConst := strip(v).(*ssa.Const); isConst {
@@ -156,6 +167,19 @@ func linOfP(v ssa.Value, sym symNamer, phiRes func(*ssa.Phi) ssa.Value) linForm 
 				}
 				if c, ok := constInt(x.Y); ok {
 					return rec(x.X, d+1).scale(c)
+				}
+			case token.QUO, token.REM, token.SHL, token.SHR, token.AND, token.OR, token.XOR:
+				lx, ly := rec(x.X, d+1), rec(x.Y, d+1)
+				if lx.OK && ly.OK {
+					// truncating division is odd: (-a)/c == -(a/c)
+					if x.Op == token.QUO && len(ly.Coef) == 0 && len(lx.Coef) == 1 && lx.K == 0 {
+						for k, cf := range lx.Coef {
+							if cf == -1 {
+								return linSym("(" + linSym(k).String() + " " + x.Op.String() + " " + ly.String() + ")").scale(-1)
+							}
+						}
+					}
+					return linSym("(" + lx.String() + " " + x.Op.String() + " " + ly.String() + ")")
 				}
 			}
 		case *ssa.UnOp:
